@@ -53,7 +53,7 @@ CHECKS = {
 }
 
 # properties whose proof modules are merged into lean/ and whose check passes on the clean tree
-READY = ["C01", "C02", "C03", "C04", "C06", "C07", "C08", "C09", "C10", "C11", "C12", "C13", "C14", "C15", "C18", "C19", "C20"]
+READY = ["C01", "C02", "C03", "C04", "C06", "C07", "C08", "C09", "C10", "C11", "C12", "C13", "C14", "C15", "C16", "C18", "C19", "C20"]
 
 CHECKS.update({
     "C04": dict(
@@ -188,6 +188,19 @@ CHECKS.update({
         note="PRNG not modelled (ensemble statistics measured). Model after fix 7ca92b2.",
         technique="Lean 4 proof (order lemmas on min/max clamps, algebra of the stochastic recurrence) + bitwise correspondence of applyTo",
         ref="DESIGN.md 7/C15"),
+    "C16": dict(
+        text="Theorems (ordered field, library functions pow/sqrt/log as parameters with their sign hypotheses): every "
+             "impedance builder returns exactly n samples with the upper half zero; free-space CSR is Z0*Gamma(2/3)*(sqrt3/2 + i/2)"
+             "*(i*delta)^(1/3) i.e. phase pi/6, non-negative real part and the cube-root scaling law; resistive wall has "
+             "Im = -Re (phase -pi/4), Re >= 0; every mode of the parallel-plates sum and the sum itself have Re >= 0 under the "
+             "stated Airy sign hypothesis; collimator is a positive constant; the factory returns nothing iff nothing is "
+             "selected and otherwise the sample-wise sum of exactly the selected contributions; sums keep Re >= 0. "
+             "Oracle on the real builders: length, finiteness, Re >= 0, zero upper half, scaling laws, phases, the side of the "
+             "source on which the response lives (free space vs wall opposite), parallel-plates asymptotics, factory = sum.",
+        note="Airy-function asymptotics (parallel plates -> free space, suppression below cutoff) and one-sidedness of the "
+             "truncated tables are measured by the oracle, not proved. n<=1 is excluded (C17).",
+        technique="Lean 4 proof (algebra/order over a field with library functions as parameters) + correspondence of all builders and the factory + analytic oracle",
+        ref="DESIGN.md 7/C16"),
 })
 
 PENDING = {
